@@ -74,7 +74,7 @@ def universe(tier, seed):
 def run(tier):
     ck = Check('C06', tier)
     items = universe(tier, ck.seed)
-    kinds = list(SEM_KINDS) + ['id/memo-off', 'failfirst', 'failfirst/memo-off'] + OBJECT_SHAPES + LISTY + ['tag/compiled-twice', 'iddefault']
+    kinds = list(SEM_KINDS) + ['id/memo-off', 'failfirst', 'failfirst/memo-off'] + OBJECT_SHAPES + LISTY + ['tag/compiled-twice', 'tag/assigned-late', 'iddefault']
     jobs, jobkey, cases = Jobs(), [], []
     for it in items:
         rules = [r['name'] for r in it['g']['rules']]
@@ -201,6 +201,11 @@ def run(tier):
                     not same(res['tag/compiled-twice'], res['tag/compiled-twice']['ref']):
                 bad('compile(g, semantics=S1) ; compile(g, semantics=S2) with S2 another object of the same class ; the first model no '
                     'longer runs the actions of S1', 'tag/compiled-twice', res['tag/compiled-twice']['ref'])
+            al = res.get('tag/assigned-late', {})
+            if c['backend'] == 'model' and 'ref' in al and al.get('v') != al['ref'].get('v'):
+                bad('model.parse(text) ; model.semantics = S1 ; model.parse(text) ; model.semantics = S2 ; model.parse(text): the parses after an '
+                    'assignment do not run the actions of the object the model holds (expected: what a model compiled with that object returns)',
+                    'tag/assigned-late', al['ref'])
             # the object's own truth value, hashability and equality play no part
             for kind in OBJECT_SHAPES:
                 if kind in res and not (kind.endswith('/api') and c['backend'] != 'model') and not same(res[kind], res['tag']):
